@@ -43,6 +43,8 @@ def call(fn, *a):
         return "E ValueError"
     except ZeroDivisionError:
         return "E internal:ZeroDivisionError"
+    except AttributeError:
+        return "E stub"  # the function read an attribute the stand-in argument of this comparison does not have: no verdict from here
     except Exception as ex:  # noqa: BLE001
         return "E internal:" + type(ex).__name__
 
@@ -133,7 +135,8 @@ def leaf_cases(rng: random.Random, name: str, n: int):
             else:
                 pn = rng.choice(notes + [note])
                 pt = rng.randint(0, 3000)
-                prev = types.SimpleNamespace(tick=pt, note=pn)
+                from .props import C04
+                prev = C04.prev_event(pn, pt)
             tk = pt + rng.choice([0, 1, thr - 1, thr, thr + 1, rng.randint(0, 1000)]) if thr >= 1 else pt + rng.randint(0, 5)
             tk = max(tk, 0)
             bits = lambda n: "".join(str(b) for b in n.value)  # noqa: E731
@@ -296,7 +299,7 @@ def validate(ctx: fw.Ctx, out: fw.Outcome, leaves):
     mod = driver.run_parallel([c[0] for c in cases])
     stats = {"leaf": 0, "expr": 0, "unsupported": 0}
     for (req, real, tag), m in zip(cases, mod):
-        if m.startswith(("E internal:unsupported", "E internal:NameError")):
+        if m.startswith(("E internal:unsupported", "E internal:NameError")) or real == "E stub":
             # outside the embedded subset's domain, or a leaf whose source the translator refused (its stub names an unbound variable):
             # the evaluator makes no claim
             stats["unsupported"] += 1
